@@ -178,6 +178,66 @@ def run(tier, seed, replay=None):
             if res["lw"] != exp[1]:
                 R.violation("--linewise output is not the in-order concatenation of the per-line outputs",
                             dict(case, got=res["lw"].decode("utf-8", "replace"), want=exp[1].decode("utf-8", "replace")))
+    # 3. several files of unequal length on the parallel path (stdout with headers, and -i)
+    n_multi = 40 if tier == "quick" else 1500
+    from props.c14 import py_standard
+    mcases = []
+    for _ in range(n_multi):
+        nf = r.randint(2, 4)
+        files = {}
+        for i in range(nf):
+            nl = r.choice([1, 3, 17, 40, 64, 5])
+            files["f%d.txt" % i] = "".join("%s %d %s\n" % (gen.word(r), j, gen.line(r, True, 3)) for j in range(nl))
+        items = gen.flag_items(r, n=r.randint(1, 3), edits=True, repeat=False, glob=False, names=False)
+        mcases.append((files, gen.items_argv(items), r.choice(["stdout", "inplace"]), r.choice([None, "2", "4", "16"])))
+
+    def multi(c):
+        files, argv, how, threads = c
+        env = {"RAYON_NUM_THREADS": threads} if threads else {}
+        with Scratch() as sc:
+            for k, v in files.items():
+                sc.write(k, v)
+            names = sorted(files)
+            if how == "inplace":
+                o = run_cli(["--linewise", "-i"] + argv + names, cwd=sc.d, env=env)
+                after = {k: sc.read(k) for k in names}
+            else:
+                o = run_cli(["--linewise"] + argv + names, cwd=sc.d, env=env)
+                after = None
+        return o, after
+    mres = pmap(multi, mcases)
+    for (files, argv, how, threads), (o, after) in zip(mcases, mres):
+        case = {"files": files, "argv": argv, "how": how, "threads": threads}
+        R.case(case, nontrivial=True)
+        R.count("multi." + how)
+        if o["timeout"] or o["rc"] != 0:
+            R.count("multi.nonzero")
+            continue
+        d = dump_opts(argv)
+        if "opts" not in d:
+            continue
+        want = {}
+        bad = False
+        for k in sorted(files):
+            lines = py_get_lines(files[k])
+            ex = hook_server_call({"op": "exec", "opts": d["opts"], "texts": lines, "file": k})
+            if "results" not in ex or any("ok" not in x for x in ex["results"]):
+                bad = True
+                break
+            want[k] = "".join(py_standard(" ", x["ok"]) for x in ex["results"]).encode("utf-8")
+        if bad:
+            R.count("multi.unjudged")
+            continue
+        if how == "inplace":
+            if after != want:
+                k = [k for k in want if after[k] != want[k]][0]
+                R.violation("--linewise -i: %s is not the in-order concatenation of its lines' outputs" % k,
+                            dict(case, got=after[k].decode("utf-8", "replace")[:400], want=want[k].decode("utf-8", "replace")[:400]))
+        else:
+            exp = b"".join(b"--- " + k.encode() + b"\n" + want[k] + b"\n" for k in sorted(want) if want[k])
+            if o["out"] != exp:
+                R.violation("--linewise over several files: stdout is not the per-file in-order concatenation",
+                            dict(case, got=o["out"].decode("utf-8", "replace")[:600], want=exp.decode("utf-8", "replace")[:600]))
     close_servers()
-    return R.finish(proof, rule="(a) get_lines on generated texts (CRLF, empty lines, no final newline, multi-byte): model vs code + flatten/shape laws on the code's output; (b) real binary: `--linewise ARGS` vs one run of `ARGS` per line (stdin, file, -i, with/without --serial; plain/delimiter/template/JSON), compared through the exact relation proved in Props/C03.lean. non-trivial = input with at least 2 lines (a newline for (a))",
+    return R.finish(proof, rule="(a) get_lines on generated texts (CRLF, empty lines, no final newline, multi-byte): model vs code + flatten/shape laws on the code's output; (b) real binary: `--linewise ARGS` vs one run of `ARGS` per line (stdin, file, -i, with/without --serial; plain/delimiter/template/JSON), compared through the exact relation proved in Props/C03.lean; (c) 2-4 files of unequal length (1..64 lines) on the parallel path with RAYON_NUM_THREADS unset/2/4/16, stdout with headers and -i, against the per-line records of the real execute(). non-trivial = input with at least 2 lines (a newline for (a))",
                     assumptions=["rayon executes each closure exactly once and collect() returns results by index (modelled as an arbitrary permutation followed by the sort)", "successful runs only (non-zero exits are counted, not judged here)"])
